@@ -197,6 +197,13 @@ class Table(Vector):
 			# Create Vectors with names from dict keys
 			initial = [Vector(values, name=col_name) for col_name, values in initial.items()]
 		
+		if initial:
+			lengths = [len(vec) for vec in initial]
+			if any(n != lengths[0] for n in lengths):
+				raise SerifValueError(
+					f"All columns of a Table must have the same length, got lengths {lengths}"
+				)
+		
 		self._length = len(initial[0]) if initial else 0
 		
 		# Deep copy columns to enforce value semantics
